@@ -39,7 +39,17 @@ package inference
 //@ define (imSep i) (forall ((s primitiveSite) (t primitiveSite)) (=> (and (siteLists i s) (siteLists i t))
 //@    (and (listSep (. (undet (imVal i s)) Implicates) (. (undet (imVal i t)) Implicates)) (listSep (. (undet (imVal i s)) Implicates) (. (undet (imVal i t)) Implicants))
 //@         (listSep (. (undet (imVal i s)) Implicants) (. (undet (imVal i t)) Implicates)) (listSep (. (undet (imVal i s)) Implicants) (. (undet (imVal i t)) Implicants)))))
-//@ define (imOK i) (and (not (= i nil)) (omOK i.mapping) (forall ((s primitiveSite)) (=> (imHas i s) (valOK (imVal i s)))) (imSep i))
+//@ -- the upstream snapshot: well-formed values whose edge lists share nothing with the live lists (so that no engine
+//@ -- operation can change what Export later diffs against)
+//@ define (up i s) (mapin i.upstreamMapping s)
+//@ define (upVal i s) (mapget i.upstreamMapping s)
+//@ define (upOK i) (forall ((s primitiveSite)) (=> (up i s) (valOK (upVal i s))))
+//@ define (strictSep a b) (and (not (= a b)) (not (= a.inner b.inner)) (or (isnil a.Pairs) (isnil b.Pairs) (not (= (arrof a.Pairs) (arrof b.Pairs))))
+//@    (forall ((x Int) (y Int)) (=> (and (omInRange a x) (omInRange b y)) (not (= (omPair a x) (omPair b y))))))
+//@ define (upSep i) (forall ((s primitiveSite) (t primitiveSite)) (=> (and (up i s) (isUndet (upVal i s)) (siteLists i t))
+//@    (and (strictSep (. (undet (upVal i s)) Implicates) (. (undet (imVal i t)) Implicates)) (strictSep (. (undet (upVal i s)) Implicates) (. (undet (imVal i t)) Implicants))
+//@         (strictSep (. (undet (upVal i s)) Implicants) (. (undet (imVal i t)) Implicates)) (strictSep (. (undet (upVal i s)) Implicants) (. (undet (imVal i t)) Implicants)))))
+//@ define (imOK i) (and (not (= i nil)) (omOK i.mapping) (forall ((s primitiveSite)) (=> (imHas i s) (valOK (imVal i s)))) (imSep i) (upOK i) (upSep i))
 //@ -- det: 0 = absent, 1 = undetermined, 2 = nilable (true), 3 = nonnil (false)
 //@ define (det i s) (ite (not (imHas i s)) 0 (ite (isUndet (imVal i s)) 1 (ite (ebVal (detBool (imVal i s))) 2 3)))
 
@@ -522,9 +532,6 @@ package inference
 //@ -- Export (C06, C03): exactly one fact, and only when something is new; it holds exactly the chosen sites whose
 //@ -- value is new or has grown since the upstream snapshot: a site unknown upstream with its whole value, a site that
 //@ -- became determined with its determined value, an undetermined site with exactly its new edges.
-//@ define (up i s) (mapin i.upstreamMapping s)
-//@ define (upVal i s) (mapget i.upstreamMapping s)
-//@ define (upOK i) (forall ((s primitiveSite)) (=> (up i s) (valOK (upVal i s))))
 //@ define (xHas x s) (mapin x.inner s)
 //@ define (xVal x s) (. (mapget x.inner s) Value)
 //@ define (siteAt i j) (. (idx i.mapping.Pairs j) Key)
